@@ -236,7 +236,7 @@ class BasicReadAssignmentLoader:
             yield self.unpickler.get_object()
 
 
-def construct_models_in_parallel(sample, chr_id, dump_filename, args, read_groups):
+def construct_models_in_parallel(sample, chr_id, dump_filename, args, read_groups, progress_filename=None):
     logger.info("Processing chromosome " + chr_id)
     construct_models = not args.no_model_construction
     # known isoforms are tracked per chromosome; drop whatever this process collected for other samples/chromosomes
@@ -253,9 +253,13 @@ def construct_models_in_parallel(sample, chr_id, dump_filename, args, read_group
         list_size = read_int(multimap_loader)
 
     chr_dump_file = dump_filename + "_" + chr_id
-    lock_file = reads_processed_lock_file_name(dump_filename, chr_id)
-    read_stat_file = "{}_read_stat".format(chr_dump_file)
-    transcript_stat_file = "{}_transcript_stat".format(chr_dump_file)
+    # the lock and the statistics of this chromosome belong to the run, not to the saved assignments it reads: with
+    # --read_assignments these are files of another run, possibly used by several runs at once
+    if progress_filename is None:
+        progress_filename = dump_filename
+    lock_file = reads_processed_lock_file_name(progress_filename, chr_id)
+    read_stat_file = "{}_{}_read_stat".format(progress_filename, chr_id)
+    transcript_stat_file = "{}_{}_transcript_stat".format(progress_filename, chr_id)
 
     if os.path.exists(lock_file) and args.resume:
         logger.info("Processed assignments from chromosome " + chr_id + " detected")
@@ -743,6 +747,7 @@ class DatasetProcessor:
             itertools.repeat(dump_filename),
             itertools.repeat(self.args),
             itertools.repeat(self.all_read_groups),
+            itertools.repeat(sample.out_raw_file),
         )
 
         if self.args.threads > 1:
@@ -760,7 +765,7 @@ class DatasetProcessor:
                     transcript_stat_counter.stats_dict[k] += v
 
         # merging removes per-chromosome files, they have to be generated again if the run is interrupted from now on
-        clean_locks(chr_ids, dump_filename, reads_processed_lock_file_name)
+        clean_locks(chr_ids, sample.out_raw_file, reads_processed_lock_file_name)
         if not self.args.no_model_construction:
             self.merge_transcript_models(sample.prefix, aggregator, chr_ids, gff_printer)
             logger.info("Transcript model file " + gff_printer.model_fname)
